@@ -1,13 +1,13 @@
 SPECIFICATION Spec
 CONSTANTS
   Senders = {s1}
-  Probes = {x1, x2}
-  Late = {x2}
+  Probes = {x1}
+  Late = {}
   MaxReq = 0
   MaxAbandon = 0
   DirOf <- SameSide
   Kinds = {"cast"}
-  Faults = {"exit"}
+  Faults = {"cut"}
   TagMode = "fresh"
   ResolveMode = "bytag"
   MaxPg = 2
